@@ -120,7 +120,9 @@ func main() {
 						c.At(i)
 						c.Nontrivial(1)
 					}
-					what := func() string { return fmt.Sprintf("w=%d len(sig)=%d descriptor=%02x%02x fill=00 len(msg)=0", w, l, b0, b1) }
+					what := func() string {
+						return fmt.Sprintf("w=%d len(sig)=%d descriptor=%02x%02x fill=00 len(msg)=0", w, l, b0, b1)
+					}
 					var o string
 					if w == 16 && i&1 == 0 {
 						o = run(c, i, "xmss.Verify", true, what, func() string { return fmt.Sprint(xmss.Verify(nil, sig, pk)) })
